@@ -19,6 +19,8 @@ import Driver.Sched
 import Driver.C09
 import Driver.C20
 import Driver.C08
+import Driver.Dialer
+import Driver.C10
 
 open Corerad
 
@@ -37,7 +39,9 @@ def handlers : List (String × (List String → List String → Option Verdict))
   ("adv6", Driver.Sched.adv6), ("adv7", Driver.Sched.adv7), ("adv9", Driver.Sched.adv7),
   ("lst", Driver.C09.lst),
   ("bt", Driver.C20.bt), ("sv", Driver.C20.sv),
-  ("shut", Driver.C08.shut)
+  ("shut", Driver.C08.shut),
+  ("d10", Driver.Dialer.d10), ("d11", Driver.Dialer.d11), ("rd", Driver.Dialer.rd),
+  ("grp", Driver.C10.grp)
 ]
 
 def runLine (line : String) : String :=
